@@ -665,6 +665,9 @@ fn additional(n: usize) -> HashMap<String, Value> {
     if n >= 2 {
         m.insert("other".to_string(), Value::Array(vec![Value::Text("x".into()), Value::Null]));
     }
+    for i in 2..n {
+        m.insert(format!("field{i}"), Value::Positive(i as u64));
+    }
     m
 }
 
@@ -827,9 +830,36 @@ macro_rules! tok {
     }};
 }
 
+/// Equal values encode equally: a value that went through decoding must re-encode to the bytes
+/// it was decoded from (several unknown fields are kept in a map - its order must not show).
+fn reencode_stable<T: cbor::CborSerialize + cbor::CborDeserialize + PartialEq + Debug>(ctx: &mut Ctx, name: &str, v: &T) {
+    let e0 = cbor::cbor_encode(v).unwrap();
+    for _ in 0..24 {
+        ctx.evals += 1;
+        let Ok(back) = cbor::cbor_decode::<T>(&e0) else {
+            ctx.violation("round-trip-changes-value", name, e0.len(), json!({"type": name, "encoding": hex::encode(&e0)}), json!({"error": "does not decode"}));
+            return;
+        };
+        let e1 = cbor::cbor_encode(&back).unwrap();
+        if back != *v || e1 != e0 {
+            ctx.violation("encoding-not-deterministic", name, e0.len(), json!({"type": name, "encoding": hex::encode(&e0)}), json!({"equal_value": back == *v, "re_encoding": hex::encode(&e1)}));
+            return;
+        }
+    }
+    ctx.outcome("re-encoding of a decoded value is stable", 1);
+}
+
 fn tokens(t: &mut Tasks) {
     let quick = t.tier == mc_core::Tier::Quick;
     t.add(fixed_arrays);
+    t.add(|ctx: &mut Ctx| {
+        for n in [0usize, 1, 2, 3, 6] {
+            reencode_stable(ctx, "MetadataUrl", &MetadataUrl { url: "u".into(), checksum_sha_256: None, additional: additional(n) });
+            reencode_stable(ctx, "TokenModuleAccountState", &TokenModuleAccountState { allow_list: Some(true), deny_list: None, additional: additional(n) });
+            reencode_stable(ctx, "TokenModuleState", &TokenModuleState { name: Some("T".into()), metadata: None, governance_account: None, allow_list: None, deny_list: None, mintable: None, burnable: None, paused: None, additional: additional(n) });
+            reencode_stable(ctx, "TokenModuleInitializationParameters", &TokenModuleInitializationParameters { name: None, metadata: None, governance_account: None, allow_list: None, deny_list: None, initial_supply: None, mintable: None, burnable: None, additional: additional(n) });
+        }
+    });
     // ---- amounts: value x 10^-decimals across CBOR, decimal string, JSON, rust_decimal ----
     t.add(|ctx: &mut Ctx| {
         for a in amounts() {
@@ -898,6 +928,15 @@ fn tokens(t: &mut Tasks) {
         }
     });
     tok!(t, TokenAmount, vec![TokenAmount::from_raw(0, 0), TokenAmount::from_raw(1_500_000, 6), TokenAmount::from_raw(u64::MAX, 255)], false);
+    tok!(t, cbor::DecimalFraction, vec![cbor::DecimalFraction::new(0, 0), cbor::DecimalFraction::new(-6, 1_500_000), cbor::DecimalFraction::new(i64::MIN, i64::MAX), cbor::DecimalFraction::new(5, -1), cbor::DecimalFraction::new(i64::MAX, i64::MIN)], false);
+    tok!(t, cbor::UnsignedDecimalFraction, vec![cbor::UnsignedDecimalFraction::new(0, 0), cbor::UnsignedDecimalFraction::new(-255, u64::MAX), cbor::UnsignedDecimalFraction::new(i64::MIN, 1), cbor::UnsignedDecimalFraction::new(i64::MAX, 7)], false);
+    tok!(t, cbor::MapKey, vec![cbor::MapKey::Positive(0), cbor::MapKey::Positive(u64::MAX), cbor::MapKey::Text(String::new()), cbor::MapKey::Text("key".into())], false);
+    {
+        use concordium_base::web3id::v1::anchor::{VerificationAuditAnchor, VerificationRequestAnchor};
+        let public = |n: usize| if n == 0 { None } else { Some(additional(n - 1)) };
+        tok!(t, VerificationRequestAnchor, (0..4).map(|n| VerificationRequestAnchor { r#type: "CCDVRA".into(), version: 1, hash: Hash::from([n as u8; 32]), public: public(n) }).collect(), false);
+        tok!(t, VerificationAuditAnchor, (0..4).map(|n| VerificationAuditAnchor { r#type: "CCDVAA".into(), version: u16::MAX, hash: Hash::from([0xF0 + n as u8; 32]), public: public(n) }).collect(), false);
+    }
     tok!(t, CborHolderAccount, vec![holder(true, 1), holder(false, 255)], false);
     tok!(t, CborMemo, vec![CborMemo::Raw(Memo::try_from(vec![]).unwrap()), CborMemo::Raw(Memo::try_from(vec![7; 256]).unwrap()), CborMemo::Cbor(Memo::try_from(vec![0xf6]).unwrap())], false);
     tok!(t, TokenOperation, operations(), false, true);
